@@ -36,7 +36,7 @@ type C18Case struct {
 	Yield      bool      `json:"yield"` // runtime.Gosched between operations
 }
 
-var c18Kinds = []string{"binary-writer+ssts", "binary-writer+fixed-lst", "text-writer+ssts", "reader+catalog", "marshal", "unmarshal", "adjust+use", "catalog-lookups", "table-lookups", "decimal/timestamp", "builder", "copy-reader-to-writer"}
+var c18Kinds = []string{"binary-writer+ssts", "binary-writer+fixed-lst", "text-writer+ssts", "reader+catalog", "marshal", "unmarshal", "adjust+use", "catalog-lookups", "table-lookups", "decimal/timestamp", "builder", "copy-reader-to-writer", "unmarshal-wrapper"}
 
 // c18Rec is the Go type shared by every Marshal / Unmarshal call.
 type c18Rec struct {
@@ -69,6 +69,8 @@ type c18Shared struct {
 	// that anything ion-go builds lazily per Go type is first built during the
 	// concurrent phase.
 	dynType reflect.Type
+	// wrapType is a per-workload annotation wrapper type ({V int; Ann []SymbolToken `ion:",annotations"`}).
+	wrapType reflect.Type
 }
 
 var c18Nonce int64
@@ -81,8 +83,55 @@ func c18DynType(nonce int64) reflect.Type {
 	})
 }
 
+func c18WrapType(nonce int64) reflect.Type {
+	return reflect.StructOf([]reflect.StructField{
+		{Name: fmt.Sprintf("V%d", nonce), Type: reflect.TypeOf(0)},
+		{Name: "Ann", Type: reflect.TypeOf([]ion.SymbolToken(nil)), Tag: `ion:",annotations"`},
+	})
+}
+
+var c18WrapDocs = []string{`unit::5`, `unit::"five"`, `7`, `a::b::-3`, `unit::2.5`, `k::null`, `unit::[1]`, `unit::99`}
+
+// c18BigDoc: two lobs longer than 64 KiB in one binary document: what a reader
+// returned for the first must survive reading the second, here and in every
+// other goroutine. Built once (read-only input bytes).
+var c18BigDocOnce sync.Once
+var c18BigDocBytes []byte
+
+func c18BigDoc() []byte {
+	c18BigDocOnce.Do(func() {
+		big1, big2 := make([]byte, 70000), make([]byte, 66000)
+		for i := range big1 {
+			big1[i] = byte('a' + i%23)
+		}
+		for i := range big2 {
+			big2[i] = byte('A' + i%19)
+		}
+		vals := []model.Value{model.BlobV(big1), model.ClobV(big2), model.Int64V(1)}
+		var buf bytes.Buffer
+		w := ion.NewBinaryWriter(&buf)
+		drive.WriteSeq(w, vals, nil)
+		w.Finish()
+		c18BigDocBytes = buf.Bytes()
+	})
+	return c18BigDocBytes
+}
+
+// c18Inputs are the read-only inputs of every workload (values to write,
+// documents to read, records): built once, never written to afterwards.
+var c18InputsOnce sync.Once
+var c18Inputs *c18Shared
+
+// c18Setup builds a fresh set of the objects the goroutines of one workload
+// share (tables, catalog, fixed table, per-workload Go types).
 func c18Setup(nonce int64) *c18Shared {
-	s := &c18Shared{dynType: c18DynType(nonce)}
+	c18InputsOnce.Do(func() { c18Inputs = c18Build(0) })
+	s := c18Build(nonce)
+	return s
+}
+
+func c18Build(nonce int64) *c18Shared {
+	s := &c18Shared{dynType: c18DynType(nonce), wrapType: c18WrapType(nonce)}
 	s.ssts = []ion.SharedSymbolTable{
 		ion.NewSharedSymbolTable("t1", 1, []string{"a", "b", "name", "sym", "abc"}),
 		ion.NewSharedSymbolTable("t2", 2, []string{"x", "y", "a", "n", "list", "inner"}),
@@ -90,6 +139,11 @@ func c18Setup(nonce int64) *c18Shared {
 	}
 	s.cat = ion.NewCatalog(append([]ion.SharedSymbolTable{ion.NewSharedSymbolTable("t2", 1, []string{"x"})}, s.ssts...)...)
 	s.lst = ion.NewLocalSymbolTable(s.ssts, []string{"loc1", "loc2", "f", "g", "s"})
+	if nonce != 0 {
+		in := c18Inputs
+		s.vals, s.docs, s.recs, s.recDocs = in.vals, in.docs, in.recs, in.recDocs
+		return s
+	}
 	texts := []string{"a", "b", "name", "x", "y", "m", "k1", "zz", "loc1", "f", "abc", "sym"}
 	for i := 0; i < 8; i++ {
 		var vals []model.Value
@@ -120,6 +174,7 @@ func c18Setup(nonce int64) *c18Shared {
 		tw.Finish()
 		s.docs = append(s.docs, tb.Bytes())
 	}
+	s.docs = append(s.docs, c18BigDoc())
 	for i := 0; i < 6; i++ {
 		r := c18Rec{Name: fmt.Sprintf("rec%d\x01\x1e%c", i, rune(2+i)), Sym: texts[i], N: int32(i * 1000), M: map[string]string{texts[i]: "w"}, // one key: binary Marshal does not sort maps
 			EmbInner: drive.EmbInner{X: i, Y: texts[i]}, T: ion.MustParseTimestamp("2020-02-29T01:02:03.5+01:00"), Any: []interface{}{i, "s"}}
@@ -227,6 +282,22 @@ func c18Do(s *c18Shared, op C18Op) string {
 		t := b.Build()
 		i3, ok := t.FindByName("zz")
 		return fmt.Sprintf("%d %v %d %v %d %d %v", i1, n1, i2, n2, t.MaxID(), i3, ok)
+	case 12:
+		// decode into the per-workload annotation wrapper: documents it accepts and
+		// documents it refuses; a refusal in one goroutine must not change what the
+		// others get
+		back := reflect.New(s.wrapType)
+		err := ion.UnmarshalString(c18WrapDocs[a%len(c18WrapDocs)], back.Interface())
+		var anns []string
+		for _, tok := range back.Elem().Field(1).Interface().([]ion.SymbolToken) {
+			anns = append(anns, drive.SymOf(&tok).String())
+		}
+		msg := fmt.Sprint(err)
+		if err != nil {
+			// the message names the per-workload type
+			msg = strings.ReplaceAll(msg, s.wrapType.Field(0).Name, "V")
+		}
+		return fmt.Sprintf("%d %v %s", back.Elem().Field(0).Int(), anns, msg)
 	default:
 		var buf bytes.Buffer
 		r := ion.NewReaderCat(bytes.NewReader(s.docs[a%len(s.docs)]), s.cat)
@@ -246,6 +317,9 @@ func c18RunScript(s *c18Shared, script []C18Op, yield bool) []string {
 	out := make([]string, len(script))
 	for i, op := range script {
 		out[i] = c18Do(s, op)
+		if len(out[i]) > 8192 {
+			out[i] = fmt.Sprintf("%s... (%d bytes, digest %016x)", out[i][:200], len(out[i]), model.DigestBytes("c18", []byte(out[i])))
+		}
 		if yield {
 			runtime.Gosched()
 		}
@@ -295,7 +369,9 @@ func runC18(c C18Case) string {
 		classes = append(classes, "op."+c18Kinds[k])
 	}
 	st.Eval(len(c.Scripts) >= 2 && sharedByTwo >= 1 && kinds[4]+kinds[5] > 0 && kinds[3]+kinds[11] > 0, model.DigestBytes("c18", mustJSON(c)), classes...)
-	st.Sample(func() string { return fmt.Sprintf("%d goroutines, %d operations, GOMAXPROCS=%d: %v", len(c.Scripts), nops, c.GoMaxProcs, c.Scripts) })
+	st.Sample(func() string {
+		return fmt.Sprintf("%d goroutines, %d operations, GOMAXPROCS=%d: %v", len(c.Scripts), nops, c.GoMaxProcs, c.Scripts)
+	})
 	if c.GoMaxProcs > 0 {
 		defer runtime.GOMAXPROCS(runtime.GOMAXPROCS(c.GoMaxProcs))
 	}
@@ -322,11 +398,11 @@ func runC18(c C18Case) string {
 	}
 	close(start)
 	wg.Wait()
-	// sequential reference run on its own set of shared objects
-	seqShared := c18Setup(nonce)
+	// reference: every script run alone, on its own fresh set of shared objects
+	// and per-workload Go types
 	seq := make([][]string, len(c.Scripts))
 	for i, sc := range c.Scripts {
-		seq[i] = c18RunScript(seqShared, sc, false)
+		seq[i] = c18RunScript(c18Setup(atomic.AddInt64(&c18Nonce, 1)), sc, false)
 	}
 	for i := range c.Scripts {
 		if panics[i] != "" {
@@ -379,8 +455,8 @@ var _ = strings.Contains
 
 func init() {
 	Describe("C18",
-		"cases: a workload of 2-32 goroutines, each running its own script of 1-8 operations over private Readers / Writers / Encoders / Decoders but shared objects: three SharedSymbolTables (and copies made by Adjust during the run), a Catalog, V1SystemSymbolTable, one fixed local symbol table handed to many NewBinaryWriterLST / MarshalBinaryLST calls, one Go struct type (embedded struct, tags, map, pointer, interface) for all Marshal / Unmarshal calls, and the package-level tables; operations: binary writer with shared tables, binary writer with the fixed table, text / pretty writer, reader with the catalog, Marshal (text, binary, fixed table), Unmarshal, Adjust-then-use, catalog look-ups and NewCatalog, table look-ups, Decimal / Timestamp parsing and arithmetic, SymbolTableBuilder, reader-to-writer copy; GOMAXPROCS in {2, 4, 16}, optional Gosched between operations; enumerated: every pair of operation kinds, two goroutines each. Non-trivial: at least two goroutines use the same kind of shared object, with at least one marshal and one reader-with-catalog operation. Distinct by digest(scripts).",
-		"oracle: the test binary is built with -race and run with GORACE=halt_on_error=1: any data race report ends the process and is a violation attributed to the workload in flight; every operation's result (bytes, observed values, errors) when run concurrently, on a fresh set of shared objects, must equal its result in a sequential run",
+		"cases: a workload of 2-32 goroutines, each running its own script of 1-8 operations over private Readers / Writers / Encoders / Decoders but shared objects: three SharedSymbolTables (and copies made by Adjust during the run), a Catalog, V1SystemSymbolTable, one fixed local symbol table handed to many NewBinaryWriterLST / MarshalBinaryLST calls, one Go struct type (embedded struct, tags, map, pointer, interface) for all Marshal / Unmarshal calls, a per-workload struct type and a per-workload annotation-wrapper type (decoded from documents it accepts and documents it refuses), a document with two lobs above 64 KiB whose returned slices are re-checked after further reading, and the package-level tables; operations: binary writer with shared tables, binary writer with the fixed table, text / pretty writer, reader with the catalog, Marshal (text, binary, fixed table), Unmarshal, Adjust-then-use, catalog look-ups and NewCatalog, table look-ups, Decimal / Timestamp parsing and arithmetic, SymbolTableBuilder, reader-to-writer copy; GOMAXPROCS in {2, 4, 16}, optional Gosched between operations; enumerated: every pair of operation kinds, two goroutines each. Non-trivial: at least two goroutines use the same kind of shared object, with at least one marshal and one reader-with-catalog operation. Distinct by digest(scripts).",
+		"oracle: the test binary is built with -race and run with GORACE=halt_on_error=1: any data race report ends the process and is a violation attributed to the workload in flight; every operation's result (bytes, observed values, errors) when run concurrently, on a fresh set of shared objects, must equal its result when its script is run alone on fresh objects and types",
 		"schedules are sampled, not enumerated: the race detector reports two conflicting unsynchronised accesses whenever both occur in a run, whatever their timing, but a wrongly-ordered yet synchronised interleaving, or a race on a path no script executes, is not found",
 	)
 }
